@@ -11,8 +11,8 @@ open GrVerif.Vm GrVerif.Seg GrVerif.Action GrVerif.Gen.Vm
 /-- every pass of the range has the loop limit `Pass::readPass` gives it (`if (m_iMaxLoop < 1) m_iMaxLoop = 1;`) -/
 def LimitsOK (passes : Array PassT) (lo hi : Nat) : Prop := ∀ k, k < hi - lo → 1 ≤ (passes.getD (lo + k) default).maxLoop
 
-theorem runPassDir_within_bound (p : PassT) (hL : 1 ≤ p.maxLoop) (c : Ctx) (fuel : Nat) (h : WF c.seg) {c' : Ctx}
-    (e : runPassDir p c fuel = .ok (some c')) : c'.vExceeded = c.vExceeded := by
+theorem runPassDir_within_bound (p : PassT) (hL : 1 ≤ p.maxLoop) (c : Ctx) (fuel : Nat) (ar : Bool) (h : WF c.seg) {c' : Ctx}
+    (e : runPassDir p c fuel ar = .ok (some c')) : c'.vExceeded = c.vExceeded := by
   unfold runPassDir at e
   split at e
   · cases e; rfl
@@ -31,8 +31,8 @@ theorem runPassDir_within_bound (p : PassT) (hL : 1 ≤ p.maxLoop) (c : Ctx) (fu
 def EngineError (w : String) : Prop :=
   (∃ p c s, findNDoRule p c s = .error w) ∨ (∃ p c s, testPassConstraint p c s = .error w)
 
-theorem runPassDir_error (p : PassT) (hL : 1 ≤ p.maxLoop) (c : Ctx) (fuel : Nat) (h : WF c.seg) {w : String}
-    (e : runPassDir p c fuel = .error w) : EngineError w := by
+theorem runPassDir_error (p : PassT) (hL : 1 ≤ p.maxLoop) (c : Ctx) (fuel : Nat) (ar : Bool) (h : WF c.seg) {w : String}
+    (e : runPassDir p c fuel ar = .error w) : EngineError w := by
   unfold runPassDir at e
   split at e
   · cases e
@@ -51,63 +51,40 @@ theorem runPassDir_error (p : PassT) (hL : 1 ≤ p.maxLoop) (c : Ctx) (fuel : Na
           · obtain ⟨c', s', hh⟩ := runPass_error p hL c fuel h e
             exact Or.inl ⟨p, c', s', hh⟩
 
-theorem runRange_fold (passes : Array PassT) (lo fuel : Nat) (limit : Int) (b : Bool) :
-    ∀ (ks : List Nat), (∀ k ∈ ks, 1 ≤ (passes.getD (lo + k) default).maxLoop) →
-    ∀ (acc : Except String (Option Ctx)),
-      ((∀ x, acc = .ok (some x) → WF x.seg ∧ x.vExceeded = b) ∧ (∀ w, acc = .error w → EngineError w)) →
-      let r := ks.foldl (fun (acc : Except String (Option Ctx)) k =>
-        match acc with
-        | .ok (some c1) =>
-          (match runPassDir (passes.getD (lo + k) default) c1 fuel with
-           | .ok (some c2) => if c2.seg.numGlyphs > 0 ∧ c2.seg.numGlyphs > limit then .ok none else .ok (some c2)
-           | o => o)
-        | o => o) acc
-      (∀ x, r = .ok (some x) → WF x.seg ∧ x.vExceeded = b) ∧ (∀ w, r = .error w → EngineError w) := by
-  intro ks
-  induction ks with
-  | nil => intro _ acc ha; exact ha
-  | cons k rest ih =>
-    intro hk acc ha
-    simp only [List.foldl_cons]
-    refine ih (fun k' hk' => hk k' (List.mem_cons_of_mem _ hk')) _ ?_
-    have hLk := hk k List.mem_cons_self
-    constructor
-    · intro y hy
-      split at hy
-      · rename_i c1
-        obtain ⟨w1, v1⟩ := ha.1 c1 rfl
-        split at hy
-        · rename_i c2 hp
-          split at hy
-          · cases hy
-          · cases hy
-            exact ⟨runPassDir_spec _ c1 fuel w1 hp, (runPassDir_within_bound _ hLk c1 fuel w1 hp).trans v1⟩
-        · rename_i o hno
-          exact absurd hy (by intro hh; exact hno y (by rw [hh]))
-      · rename_i o hno
-        exact absurd hy (fun hh => hno y hh)
-    · intro w hw
-      split at hw
-      · rename_i c1
-        obtain ⟨w1, v1⟩ := ha.1 c1 rfl
-        split at hw
-        · split at hw <;> cases hw
-        · rename_i o hno
-          exact runPassDir_error _ hLk c1 fuel w1 hw
-      · exact ha.2 w hw
-
 theorem beginRange_wf {c : Ctx} (h : WF c.seg) (limit : Int) : WF (c.beginRange limit).seg := h
 
-/-- **C02, a run of passes**: the loop report never says "exceeded", and an error is a rule application's -/
+/-- **C02, a run of passes**: the loop report never says "exceeded", and an error is a rule application's or a pass constraint's -/
 theorem runRange_within_bound (passes : Array PassT) (c : Ctx) (lo hi fuel : Nat) (h : WF c.seg) (hL : LimitsOK passes lo hi) :
     (∀ c', runRange passes c lo hi fuel = .ok (some c') → c'.vExceeded = c.vExceeded) ∧
     (∀ w, runRange passes c lo hi fuel = .error w → EngineError w) := by
   unfold runRange
-  simp only []
-  have := runRange_fold passes lo fuel (c.seg.numGlyphs * 64) c.vExceeded (List.range (hi - lo))
-    (fun k hk => hL k (List.mem_range.mp hk)) (.ok (some (c.beginRange (c.seg.numGlyphs * 64))))
-    ⟨fun x hx => by cases hx; exact ⟨h, rfl⟩, fun w hw => by cases hw⟩
-  exact ⟨fun c' e => (this.1 c' e).2, this.2⟩
+  have hstep : ∀ k, k < hi - lo → ∀ c1 c2, (WF c1.seg ∧ c1.vExceeded = c.vExceeded) → runPassDir (passes.getD (lo + k) default) c1 fuel true = .ok (some c2) →
+      (WF c2.seg ∧ c2.vExceeded = c.vExceeded) :=
+    fun k hk c1 c2 h1 e1 => ⟨runPassDir_spec _ c1 fuel true h1.1 e1, (runPassDir_within_bound _ (hL k hk) c1 fuel true h1.1 e1).trans h1.2⟩
+  refine ⟨fun c' e => (runPasses_ind (fun x => WF x.seg ∧ x.vExceeded = c.vExceeded) passes _ true lo hi fuel hstep (c.beginRange (c.seg.numGlyphs * 64)) ⟨h, rfl⟩ e).2, fun w e => ?_⟩
+  obtain ⟨k, c1, hk, h1, he⟩ := runPasses_err (fun x => WF x.seg ∧ x.vExceeded = c.vExceeded) passes _ true lo hi fuel hstep (c.beginRange (c.seg.numGlyphs * 64)) ⟨h, rfl⟩ e
+  exact runPassDir_error _ (hL k hk) c1 fuel true h1.1 he
+
+/-- the same for a call of `Silf::runGraphite` with the bidi step -/
+theorem runPhase_within_bound (passes : Array PassT) (bPass : Nat) (c : Ctx) (lo hi : Nat) (dobidi : Bool) (fuel : Nat) (h : WF c.seg)
+    (hL : ∀ k, lo ≤ k → k < hi → 1 ≤ (passes.getD k default).maxLoop) :
+    (∀ c', runPhase passes bPass c lo hi dobidi fuel = .ok (some c') → c'.vExceeded = c.vExceeded) ∧
+    (∀ w, runPhase passes bPass c lo hi dobidi fuel = .error w → EngineError w) := by
+  have hstep : ∀ ar k, lo ≤ k → k < hi → ∀ c1 c2, (WF c1.seg ∧ c1.vExceeded = c.vExceeded) → runPassDir (passes.getD k default) c1 fuel ar = .ok (some c2) →
+      (WF c2.seg ∧ c2.vExceeded = c.vExceeded) :=
+    fun ar k h1k h2k c1 c2 h1 e1 => ⟨runPassDir_spec _ c1 fuel ar h1.1 e1, (runPassDir_within_bound _ (hL k h1k h2k) c1 fuel ar h1.1 e1).trans h1.2⟩
+  have hbegin : ∀ (x : Ctx) (l : Int), (WF x.seg ∧ x.vExceeded = c.vExceeded) → (WF (x.beginRange l).seg ∧ (x.beginRange l).vExceeded = c.vExceeded) :=
+    fun x l hx => hx
+  have hbidi : ∀ (x : Ctx), (WF x.seg ∧ x.vExceeded = c.vExceeded) → (WF (bidiStep x).seg ∧ (bidiStep x).vExceeded = c.vExceeded) := by
+    intro x hx
+    refine ⟨bidiStep_wf hx.1, ?_⟩
+    unfold bidiStep
+    split
+    · exact hx.2
+    · exact hx.2
+  refine ⟨fun c' e => (runPhase_ind (fun x => WF x.seg ∧ x.vExceeded = c.vExceeded) passes bPass lo hi dobidi fuel hstep hbegin hbidi c ⟨h, rfl⟩ e).2, fun w e => ?_⟩
+  obtain ⟨ar, k, c1, h1k, h2k, h1, he⟩ := runPhase_err (fun x => WF x.seg ∧ x.vExceeded = c.vExceeded) passes bPass lo hi dobidi fuel hstep hbegin hbidi c ⟨h, rfl⟩ e
+  exact runPassDir_error _ (hL k h1k h2k) c1 fuel ar h1.1 he
 
 /-- **C02, the pipeline**: for every font whose passes carry the loop limit the loader gives them, and every text, the rule
 loops of all passes stay within `maxRuleLoop × (slots + insertion budget + 2)` iterations (the model's loop report never
@@ -115,8 +92,8 @@ says "exceeded"), … -/
 theorem shape_within_bound (font : Font) (text : List Nat) (fuel : Nat) (dir : Nat) (hi : font.ipos ≤ font.passes.size)
     (hL : ∀ k, k < font.passes.size → 1 ≤ (font.passes.getD k default).maxLoop) {c : Ctx} {ci : List Assoc.CI}
     (e : shape font text fuel dir = .ok (some (c, ci))) : c.vExceeded = false := by
-  have hL1 : LimitsOK font.passes 0 font.ipos := fun k hk => hL _ (by omega)
-  have hL2 : LimitsOK font.passes font.ipos font.passes.size := fun k hk => hL _ (by omega)
+  have hL1 : ∀ k, 0 ≤ k → k < font.ipos → 1 ≤ (font.passes.getD k default).maxLoop := fun k _ hk => hL _ (by omega)
+  have hL2 : ∀ k, font.ipos ≤ k → k < font.passes.size → 1 ≤ (font.passes.getD k default).maxLoop := fun k _ hk => hL _ hk
   unfold shape at e
   split at e
   · simp only [Except.ok.injEq, Option.some.injEq, Prod.mk.injEq] at e
@@ -125,8 +102,8 @@ theorem shape_within_bound (font : Font) (text : List Nat) (fuel : Nat) (dir : N
     · cases e
     · cases e
     · rename_i c1 h1
-      have w1 : WF c1.seg := runRange_spec _ _ _ _ _ (initSeg_wf font text dir) h1
-      have v1 : c1.vExceeded = false := (runRange_within_bound _ _ _ _ fuel (initSeg_wf font text dir) hL1).1 c1 h1
+      have w1 : WF c1.seg := runPhase_spec _ _ _ _ _ _ _ (initSeg_wf font text dir) h1
+      have v1 : c1.vExceeded = false := (runPhase_within_bound _ _ _ _ _ _ fuel (initSeg_wf font text dir) hL1).1 c1 h1
       split at e
       · cases e
       · rename_i seg' ci' hre
@@ -137,7 +114,7 @@ theorem shape_within_bound (font : Font) (text : List Nat) (fuel : Nat) (dir : N
         · rename_i c2 h2
           simp only [Except.ok.injEq, Option.some.injEq, Prod.mk.injEq] at e
           rw [← e.1]
-          exact ((runRange_within_bound _ (c1.withSeg seg') _ _ fuel w2 hL2).1 c2 h2).trans v1
+          exact ((runPhase_within_bound _ _ (c1.withSeg seg') _ _ _ fuel w2 hL2).1 c2 h2).trans v1
 
 /-- … and the fuel of the model's recursion is never what ends a run: an error of `shape` comes from a rule application
 (a fault the model reports for an access the C++ does not guard, or code the decoder refuses) or from `associateChars` -/
@@ -145,18 +122,18 @@ theorem shape_error (font : Font) (text : List Nat) (fuel : Nat) (dir : Nat) (hi
     (hL : ∀ k, k < font.passes.size → 1 ≤ (font.passes.getD k default).maxLoop) {w : String}
     (e : shape font text fuel dir = .error w) :
     (EngineError w) ∨ w = "associateChars: char-info access out of range" := by
-  have hL1 : LimitsOK font.passes 0 font.ipos := fun k hk => hL _ (by omega)
-  have hL2 : LimitsOK font.passes font.ipos font.passes.size := fun k hk => hL _ (by omega)
+  have hL1 : ∀ k, 0 ≤ k → k < font.ipos → 1 ≤ (font.passes.getD k default).maxLoop := fun k _ hk => hL _ (by omega)
+  have hL2 : ∀ k, font.ipos ≤ k → k < font.passes.size → 1 ≤ (font.passes.getD k default).maxLoop := fun k _ hk => hL _ hk
   unfold shape at e
   split at e
   · cases e
   · split at e
     · rename_i w1 h1
       cases e
-      exact .inl ((runRange_within_bound _ _ _ _ fuel (initSeg_wf font text dir) hL1).2 w h1)
+      exact .inl ((runPhase_within_bound _ _ _ _ _ _ fuel (initSeg_wf font text dir) hL1).2 w h1)
     · cases e
     · rename_i c1 h1
-      have w1 : WF c1.seg := runRange_spec _ _ _ _ _ (initSeg_wf font text dir) h1
+      have w1 : WF c1.seg := runPhase_spec _ _ _ _ _ _ _ (initSeg_wf font text dir) h1
       split at e
       · cases e; exact .inr rfl
       · rename_i seg' ci' hre
@@ -164,7 +141,7 @@ theorem shape_error (font : Font) (text : List Nat) (fuel : Nat) (dir : Nat) (hi
         split at e
         · rename_i w2' h2
           cases e
-          exact .inl ((runRange_within_bound _ (c1.withSeg seg') _ _ fuel w2 hL2).2 w h2)
+          exact .inl ((runPhase_within_bound _ _ (c1.withSeg seg') _ _ _ fuel w2 hL2).2 w h2)
         · cases e
         · cases e
 
